@@ -109,7 +109,9 @@ Definition utf8_dec_strict (bs : bytes) : option (Z * bytes) :=
   match utf8_dec bs with
   | Some (r, rest) =>
     if r =? rune_error
-    then match bs with 239 :: 191 :: 189 :: rest' => Some (rune_error, rest') | _ => None end
+    then match bs with
+         | b0 :: b1 :: b2 :: rest' => if (b0 =? 239) && (b1 =? 191) && (b2 =? 189) then Some (rune_error, rest') else None
+         | _ => None end
     else Some (r, rest)
   | None => None
   end.
